@@ -4,6 +4,7 @@ import (
 	"go/ast"
 	"go/token"
 	"go/types"
+	"strings"
 
 	"golang.org/x/tools/go/packages"
 )
@@ -203,6 +204,41 @@ func ruleCacheParent(c *Ctx) {
 						if b, ok := info.TypeOf(id).Underlying().(*types.Basic); ok && b.Kind() == types.Bool {
 							notFound = true
 						}
+					}
+				}
+				// or under `!ok || index < trusted` (and the like): whichever disjunct holds, the answer is either
+				// "not found" or below the trusted prefix
+				var disj []ast.Expr
+				for child, p := ast.Node(r), parents[r]; p != nil; child, p = p, parents[p] {
+					if is, ok := p.(*ast.IfStmt); ok && child == ast.Node(is.Body) {
+						disj = append(disj, is.Cond)
+					}
+					if _, ok := p.(*ast.FuncLit); ok {
+						break
+					}
+				}
+				for _, cde := range disj {
+					ds := flattenBool(cde, token.LOR)
+					if len(ds) < 2 {
+						continue
+					}
+					all := true
+					for _, d := range ds {
+						d = ast.Unparen(d)
+						if u, ok := d.(*ast.UnaryExpr); ok && u.Op == token.NOT {
+							if id, ok := ast.Unparen(u.X).(*ast.Ident); ok {
+								if b, ok := info.TypeOf(id).Underlying().(*types.Basic); ok && b.Kind() == types.Bool {
+									continue
+								}
+							}
+						}
+						if be, ok := d.(*ast.BinaryExpr); ok && says(pathFact{be: be}, polyAtom(handed.Name()), trusted, token.LSS) {
+							continue
+						}
+						all = false
+					}
+					if all {
+						below = true
 					}
 				}
 				if below {
@@ -639,6 +675,23 @@ func ruleCacheDeposit(c *Ctx) {
 	}
 	// AddValidator result stored into epc.ValidatorPubkeyCache, after state.AddValidator
 	var stateAdd, cacheAdd, store ast.Node
+	// the new-validator part may live in an unexported function only ProcessDeposit calls (owners.go): read it there
+	for _, h := range ownedHelpers("phase0.ProcessDeposit") {
+		if _, hd := c.P.findFunc("eth2/beacon/phase0", strings.TrimPrefix(h, "phase0.")); hd != nil && hd.Body != nil {
+			has := false
+			ast.Inspect(hd.Body, func(n ast.Node) bool {
+				if x, ok := n.(*ast.CallExpr); ok {
+					if f := calleeFunc(info, x); f != nil && f.Name() == "AddValidator" {
+						has = true
+					}
+				}
+				return !has
+			})
+			if has {
+				fd = hd
+			}
+		}
+	}
 	ast.Inspect(fd.Body, func(n ast.Node) bool {
 		switch x := n.(type) {
 		case *ast.CallExpr:
